@@ -610,6 +610,64 @@ func runC02(c *Ctx) {
 	// ---------- R02.9 the gRPC client never re-subscribes from nowhere
 	c.Import(runC13, "R13.2", "", "R02.9", "E1", "client watch adapter: a re-Watch after a stream failure happens only once a bookmark was recorded — otherwise the new stream would start at the server's current position and silently skip the events in between", 1)
 
+	// ---------- R02.11 ring slots are addressed with the ring's current capacity
+	c.Rule("R02.11", "E3", "inmem ring: every slot address stream[x % m] takes m from the collection's capacity field at the time of the access — the ring grows during its first lap, and a modulus remembered from before a growth step addresses a first-lap slot: an old event is delivered again, the real one is dropped, and no Errored event is sent", 1)
+
+	{
+		n, bad := 0, ""
+
+		var badPos token.Pos
+
+		for _, f := range p.PkgFuncs(pkgInmem) {
+			for _, in := range Find(f, func(in ssa.Instruction) bool {
+				ia, ok := in.(*ssa.IndexAddr)
+
+				return ok && LoadsField(ia.X, "ResourceCollection", "stream")
+			}) {
+				ia := in.(*ssa.IndexAddr)
+
+				idx := ia.Index
+				for {
+					if cv, ok := idx.(*ssa.Convert); ok {
+						idx = cv.X
+
+						continue
+					}
+
+					break
+				}
+
+				bo, ok := idx.(*ssa.BinOp)
+				if !ok || bo.Op != token.REM {
+					continue
+				}
+
+				n++
+
+				y := bo.Y
+				for {
+					if cv, ok := y.(*ssa.Convert); ok {
+						y = cv.X
+
+						continue
+					}
+
+					break
+				}
+
+				if d := p.DescN(bo.Y, 6); !LoadsField(y, "ResourceCollection", "capacity") {
+					bad, badPos = FuncName(f)+": stream is indexed modulo "+d+", which is not the capacity field read at the access", ia.Pos()
+				}
+			}
+		}
+
+		if n < 3 {
+			c.Unknown("R02.11", pkgInmem+" :: ring slots are addressed modulo the current capacity", token.NoPos, fmt.Sprintf("anchor-unresolved: expected >= 3 modular slot addresses, found %d", n))
+		} else {
+			c.Check(bad == "", "R02.11", pkgInmem+" :: ring slots are addressed modulo the current capacity", badPos, fmt.Sprintf("%d modular slot addresses examined", n), bad)
+		}
+	}
+
 	// ---------- R02.10 (shared with C13 R13.1)
 	c.Rule("R02.10", "E3", "a re-established remote watch carries every field of the initial request (API version included — the server only sends the terminal Errored event to API version >= 1): a resumed stream still fails loudly on overrun", 4)
 	resumeRequestRule(c, "R02.10")
